@@ -1563,11 +1563,17 @@ func (env *LEnv) funCall(ctx context.Context, fun, args *LVal) *LVal {
 	defer env.Runtime.Stack.Pop()
 
 	if npop > 0 {
-		return markTailRec(npop, fun, args)
+		// Remember the package this call was made in: a builtin runs in its
+		// caller's package, and the frame that resumes the call (below) may
+		// belong to an earlier caller in another package.
+		mark := markTailRec(npop, fun, args)
+		mark.Str = env.Runtime.Package.Name
+		return mark
 	}
 
+	resumePkg := ""
 callf:
-	r := env.call(ctx, fun, args)
+	r := env.callResumed(ctx, fun, args, resumePkg)
 	if r == nil {
 		return env.Errorf("internal error: function %s returned nil", env.GetFunName(fun))
 	}
@@ -1593,6 +1599,7 @@ callf:
 			// final body form of that turn is in tail position.
 			top.Terminal = false
 			fun, args = extractMarkTailRec(r)
+			resumePkg = r.Str
 			goto callf
 		}
 	}
@@ -1601,6 +1608,27 @@ callf:
 		d.OnFunReturn(env, fun, r)
 	}
 	return r
+}
+
+// callResumed is env.call for a collapsed tail call that is resumed in the
+// frame of an earlier caller.  A lisp function switches to its own package in
+// call; a builtin runs in the package of the code that called it -- funcall
+// and apply resolve a symbol argument there -- and by the time the call is
+// resumed that package has been restored away with the frames that were
+// popped.  pkg is the package the call was made in ("" for a call that is
+// not resumed).
+func (env *LEnv) callResumed(ctx context.Context, fun, args *LVal, pkg string) *LVal {
+	if pkg == "" || pkg == env.Runtime.Package.Name || fun.Builtin() == nil {
+		return env.call(ctx, fun, args)
+	}
+	inner := env.Runtime.Registry.packages[pkg]
+	if inner == nil {
+		return env.call(ctx, fun, args)
+	}
+	outer := env.Runtime.Package
+	env.Runtime.Package = inner
+	defer func() { env.Runtime.Package = outer }()
+	return env.call(ctx, fun, args)
 }
 
 func extractMarkTailRec(mark *LVal) (fun, args *LVal) {
